@@ -211,7 +211,7 @@ func init() {
 func TestC08_SecondDenom(t *testing.T) {
 	st := ev.New("C08", "TestC08_SecondDenom", "a clawback vesting grant that carries a second denomination with a registered ERC20 representation (1-4 lockup periods, vesting equal to the lockup or all at the first event); 2-9 ops with time passing in between: ERC20-aware bank send, MsgConvertCoin (amounts = spendable + {-1,0,1,2,1000} or absolute), conversion back, clawback, a further grant; non-trivial = a boundary amount went through the wrapper or the conversion")
 	runCorpus(t, st)
-	runRapid(t, st, 300, 12000, func(rt *rapid.T) {
+	runRapid(t, st, 300, 30000, func(rt *rapid.T) {
 		if msg := runC08D(st, genC08D(rt)); msg != "" {
 			rt.Fatalf("%s", msg)
 		}
